@@ -741,6 +741,9 @@ func (s *State) diffASAACLs(al, bl []*cmd, diff []edit.Range) {
 		p = rx.ReplaceAllLiteralString(p, "")
 		if a := delMap[p]; a != nil {
 			moveACL(a, b)
+			// Can't move a line again, which already has been moved,
+			// if identical remark lines occur multiple times.
+			delete(delMap, p)
 			continue
 		}
 		addACL(b)
